@@ -5,7 +5,7 @@ import vlib
 
 TARGETS = ["Base/Num.vo", "C14/ER.vo", "C14/Model.vo", "C14/Spec.vo", "C14/ProofsER.vo", "C14/Corr.vo",
            "C14/ProofsCont.vo", "C14/ProofsDisc.vo", "C14/ProofsNorm.vo", "C14/ProofsCdf.vo", "C14/ProofsCdf2.vo",
-           "C14/ProofsRegress.vo", "C14/Props.vo"]
+           "C14/ProofsRegress.vo", "C14/VModel.vo", "C14/ProofsVec.vo", "C14/Props.vo"]
 PROPS = ["C14/Props.v"]
 PARTIAL = ("Theorems are over exact real arithmetic extended by +Inf/-Inf/NaN (coq/C14/ER.v); rounding, overflow and "
            "signed zeros of binary64 are not modelled; the step to binary64 is bounded per sampled case by the "
@@ -34,7 +34,7 @@ def match_known(fail, findings):
         fams = fams if isinstance(fams, list) else [fams]
         if fail["fam"] not in fams or fail["kind"] not in m.get("kinds", []):
             continue
-        env = {"ps": fail["p"].get("ps") or [], "zs": fail["p"].get("zs") or [], "x": fail["x"],
+        env = {"ps": fail["p"].get("ps") or [], "zs": fail["p"].get("zs") or [], "x": fail["x"], "v": fail.get("v") or {},
                "fam": fail["fam"], "abs": abs, "sum": sum, "True": True, "False": False}
         try:
             if eval(m.get("when", "False"), {"__builtins__": {}}, env):
@@ -150,10 +150,11 @@ def run(ctx):
             continue
         reported.add(key)
         ctx.violation({"case": {"fam": f["fam"], "fn": f["fn"] if f["fn"] in ("LogPdf", "LogCdf", "Cdf") else "LogPdf",
-                                "p": f["p"], "x": f["x"]}, "failure": f,
+                                "p": f["p"], "x": f["x"], "v": f.get("v")}, "failure": f,
                        "broken": [x["target"] for x in failures] + (["correspondence C14.Corr"] if bad else [])},
                       True, "%s %s: %s of %s at x=%s with parameters %s: observed %s, expected %s" % (
-                          f["fam"], f["kind"], f["fn"], f["fam"], f["x"], f["p"], f["observed"], f["expected"]))
+                          f["fam"], f["kind"], f["fn"], f["fam"], (f.get("v") or {}).get("x", f["x"]),
+                          f.get("v") or f["p"], f["observed"], f["expected"]))
     if not unknown:
         for f in failures:
             ctx.violation({"obligation": f["target"], "lemma": f["lemma"], "errors": f["errors"]}, False,
